@@ -44,7 +44,7 @@ ASSUMPTIONS = [
     'is not a metric and is excluded)',
     'the near-pi grid stops at pi - 1e-6 and pi itself (exactly symmetric and rounding-level asymmetric half-turns both occur)',
 ]
-REQUIRED_CLASSES = ['stack-sizes', 'containers:matrix', 'containers:quaternion', 'pairs:group', 'pairs:conjugate', 'zero:same', 'zero:antipodal', 'angle:pi', 'angle:<1e-2',
+REQUIRED_CLASSES = ['stack-sizes', 'containers:matrix', 'containers:quaternion', 'containers:quaternion-rows', 'pairs:group', 'pairs:conjugate', 'zero:same', 'zero:antipodal', 'angle:pi', 'angle:<1e-2',
                     'angle:near-pi', 'inv:left', 'inv:right', 'triangle:tight', 'triangle:strict', 'triangle:geodesic',
                     'entry:single', 'entry:N-row', 'cf:right', 'cf:left']
 
@@ -603,7 +603,11 @@ def job_containers(ctx, k):
     qgen = [A.MENU[k], A.MENU[(k + 5) % 8]]
     q_carriers = [('float32', lambda q: q.astype(np.float32), False), ('int64', lambda q: q.astype(np.int64), True), ('int list', lambda q: [int(x) for x in q], True),
                   ('float list', lambda q: [float(x) for x in q], False), ('tuple', lambda q: tuple(float(x) for x in q), False),
-                  ('Quaternion', lambda q: Quaternion(q.copy()), False), ('strided view', lambda q: np.repeat(q, 2)[::2], False)]
+                  ('Quaternion', lambda q: Quaternion(q.copy()), False), ('strided view', lambda q: np.repeat(q, 2)[::2], False),
+                  # objects holding NON-unit numbers (built with versor=False, or derived by arithmetic from a unit object): the same numbers as
+                  # a plain array give the same distance, so these must too
+                  ('Quaternion(3q, versor=False)', lambda q: Quaternion(3.0 * q, versor=False), False), ('2.5 * Quaternion(q)', lambda q: 2.5 * Quaternion(q.copy()), False),
+                  ('Quaternion(q) / 4', lambda q: Quaternion(q.copy()) / 4.0, False)]
     qpairs = [(Q8[i], Q8[j], f'Q8[{i}]~Q8[{j}]') for i, j in ((0, 0), (0, 4), (1, 2), (3, 0))] + [(Q8[1], qgen[0], 'Q8[1]~generic#0'), (qgen[0], qgen[1], 'generic#0~generic#1'),
                                                                                                  (qgen[1], Q8[2], 'generic#1~Q8[2]')]
     for m in QM:
@@ -628,7 +632,31 @@ def job_containers(ctx, k):
                     ctx.expect(abs(v - ref) <= tol, f'{m}: same distance whatever container / numeric type carries the quaternions', key, v, ref, tol)
             ctx.seen(('containers', m, lab))
         ctx.cls('containers:quaternion')
-    ctx.sample({'matrix_carriers': [c[0] for c in mat_carriers], 'quaternion_carriers': [c[0] for c in q_carriers]})
+    # N-row calls with the rows carried by QuaternionArray objects (unit, and non-unit through versors=False or arithmetic) and nested lists
+    from ahrs import QuaternionArray
+    rowsA = np.array([A.MENU[(k + j) % 8] for j in range(5)]); rowsB = np.array([A.MENU[(k + 3 + 2 * j) % 8] for j in range(5)])
+    n_carriers = [('QuaternionArray', lambda X: QuaternionArray(X.copy())), ('QuaternionArray(3X, versors=False)', lambda X: QuaternionArray(3.0 * X, versors=False)),
+                  ('QuaternionArray(X) * 0.2 (element-wise)', lambda X: np.multiply(QuaternionArray(X.copy()), 0.2)), ('nested list', lambda X: [[float(x) for x in r] for r in X]),
+                  ('float32', lambda X: X.astype(np.float32)), ('Fortran-ordered', lambda X: np.asfortranarray(X))]
+    for m in QM:
+        fn = getattr(M, m)
+        for nrows in (1, 2, 4, 5):
+            Xa, Xb = rowsA[:nrows], rowsB[:nrows]
+            ref = np.asarray(fn(Xa.copy(), Xb.copy()), float)
+            for cn1, c1 in n_carriers:
+                for cn2, c2 in [('float64', lambda X: X.copy())] + n_carriers:
+                    key = f'N={nrows} k{k} first as {cn1}, second as {cn2}'
+                    ctx.evals += 1
+                    try:
+                        v = np.asarray(fn(c1(Xa), c2(Xb)), float)
+                    except (TypeError, AttributeError):
+                        ctx.outcome(('container-refused', m)); continue
+                    except Exception as ex:
+                        ctx.fail(f'{m}: raises for N rows in another container', key, f'{type(ex).__name__}: {ex}'[:160], ref); continue
+                    tol = 2e-3 if 'float32' in cn1 + cn2 else 1e-12
+                    ctx.expect(v.shape == ref.shape and bool(np.all(np.abs(v - ref) <= tol)), f'{m}: N rows give the same distances whatever container carries them', key, v, ref, tol)
+        ctx.cls('containers:quaternion-rows')
+    ctx.sample({'matrix_carriers': [c[0] for c in mat_carriers], 'quaternion_carriers': [c[0] for c in q_carriers], 'row_carriers': [c[0] for c in n_carriers]})
     ctx.transitions += len(pairs) * len(RM) + len(qpairs) * len(QM)
     ctx.states += len(pairs) + len(qpairs)
 
